@@ -173,6 +173,42 @@ theorem C06_quantise_trunc (v p : Rat) (hp : 0 < p) :
     have a2 := Rat.mul_lt_mul_of_pos_right b2 hp
     refine ⟨a1, by grind, b3⟩
 
+/-- **C06_front_accepted.** The property fixes a tolerance, not a rounding policy; the correspondence therefore
+judges the bytes the library stored with `acceptsQ` (within half a step — one step for the 8-byte field — of the
+exact quotient `q`, or the out-of-range code when `q` is that close to an integer outside the code range).
+This theorem shows the judge is satisfiable and consistent with the rest: for every exact quotient `q` and
+every field kind, storing the model's own `frontQ w q` (round half away; truncation for 8 bytes) and loading it
+back is accepted with zero slack — in range by the round trip, out of range by saturation. -/
+theorem C06_front_accepted (w : Nat) (s : Bool) (q : Rat) (hw : Kind w s)
+    (hd : w = 8 → DoubleInt (frontQ w q)) :
+    ∃ bs, setBufDouble w s (.int (frontQ w q)) = .ok bs ∧
+      ∀ rest, acceptsQ w s q 0 (getBufDouble w s (bs ++ rest)) = true := by
+  have hb := front_within w q
+  generalize frontQ w q = k at *
+  by_cases hin : loBound w s ≤ k ∧ k ≤ orCode w s
+  · obtain ⟨bs, h1, _, _, h4⟩ := C06_code_roundtrip w s k hw hin.1 hin.2
+    refine ⟨bs, h1, fun rest => ?_⟩
+    rw [h4]
+    simp only [acceptsQ, Bool.or_eq_true, decide_eq_true_eq]
+    left; grind
+  · have ho : OutOfRange w s (.int k) := by simp only [OutOfRange]; omega
+    obtain ⟨h1, h2⟩ := C06_saturate w s (.int k) hw ho (fun k' h8 e => by cases e; exact hd h8)
+    refine ⟨_, h1, fun rest => ?_⟩
+    rw [h2]
+    simp only [acceptsQ, Bool.or_eq_true, decide_eq_true_eq, Bool.and_eq_true, beq_self_eq_true, true_and]
+    right
+    have hk : k ≤ loBound w s - 1 ∨ orCode w s ≤ k := by omega
+    unfold absQ at hb
+    rcases hk with hk | hk
+    · right
+      have := Rat.intCast_le_intCast.mpr hk
+      split at hb <;> grind
+    · left
+      have := Rat.intCast_le_intCast.mpr hk
+      split at hb <;> grind
+
+example : Kind 2 true ∧ ((2 : Nat) = 8 → DoubleInt (frontQ 2 (5 / 2))) := ⟨Or.inr (Or.inl rfl), fun h => by cases h⟩
+
 /-- **C06_round_ties_sign.** Ties go away from zero on both sides, integers (and so −0) are fixed
 points, and rounding is odd: `round(−q) = −round(q)`. -/
 theorem C06_round_ties_sign (n : Int) (q : Rat) :
